@@ -9,7 +9,7 @@ use crate::verif_support::*;
 use crate::{Date, DateTime, Error, IntervalDT, IntervalYM, OracleDate, Time, Timestamp};
 use std::cmp::Ordering;
 
-//@ unit c17_cmp prop=C17,C03 mem=3 bound="every valid Date, Timestamp and Oracle-style date (whole-second count): ==, <, <=, >, partial_cmp between Date and Timestamp, OracleDate and Timestamp, OracleDate and Date, in both argument orders, equal the comparison of the converted microsecond counts"
+//@ unit c17_cmp prop=C17 tier=thorough mem=4 timeout=7200 bound="every valid Date, Timestamp and Oracle-style date (whole-second count): ==, <, <=, >, partial_cmp between Date and Timestamp, OracleDate and Timestamp, OracleDate and Date, in both argument orders, equal the comparison of the converted microsecond counts"
 fn c17_cmp() {
     let n = any_i32_in(DAY_MIN, DAY_MAX);
     let u = any_i64_in(TS_MIN, TS_MAX);
@@ -60,7 +60,7 @@ fn c17_date_as_midnight() {
     kani::cover!(d.add_interval_dt(mk_dt(i)).is_err());
 }
 
-//@ unit c16_sub_date prop=C16,C03 mem=4 timeout=1200 bound="every Oracle-style date b and every whole number of days n with b + n days in range: (b + n days).sub_date(b) == n exactly (as f64); and the sign of sub_date follows the order of its operands for arbitrary pairs"
+//@ unit c16_sub_date prop=C16 tier=thorough mem=6 timeout=7200 bound="every Oracle-style date b and every whole number of days n with b + n days in range: (b + n days).sub_date(b) == n exactly (as f64); and the sign of sub_date follows the order of its operands for arbitrary pairs"
 fn c16_sub_date() {
     let k = any_i64_in(TS_MIN / 1_000_000, TS_MAX / 1_000_000);
     let n = any_i64_in(-3_652_058, 3_652_058);
@@ -102,9 +102,8 @@ fn c16_add_days_pool(secs: i64) {
                 Ok(v) => {
                     assert!(v.usecs() == e && e <= TS_MAX);
                     assert!(v.usecs() % 1_000_000 == 0);
-                    kani::cover!(rem == 500_000);
-                    kani::cover!(rem == 499_999);
-                    kani::cover!(rem == -500_000);
+                    kani::cover!(rem == 500_000 || rem == -500_000);
+                    kani::cover!(rem == 499_999 || rem == -499_999);
                 }
                 Err(er) => assert!(e > TS_MAX && matches!(er, Error::DateOutOfRange)),
             }
